@@ -272,6 +272,7 @@ class Options:
         self.base_kinds = True  # fn may raise BaseException-only
         self.fuse = True  # lock-set based atomic fusing (False: every shared access is its own step)
         self.all_ok = False  # restrict the instance to runs in which no call fails
+        self.int_where = "all"  # interrupt positions: all | not_startup | only_startup (startup = a thread is started but not yet recorded)
         self.__dict__.update(kw)
 
 
@@ -489,7 +490,10 @@ class Encoder:
             first = not items
             if not first:
                 stop = blocking or (phase == 1 and cls in ("R", "N")) or (phase == 0 and cls == "R")
-                if self.opts.interrupt and pname == "main" and lab in self.main_concurrent and cls != "B":
+                if self.opts.interrupt and pname == "main" and lab in self.main_concurrent and (cls != "B" or ins.op == "env"):
+                    # an asynchronous exception can land between any two instructions of the coordinator: besides every shared-state
+                    # operation, every call-like operation on its own bookkeeping (e.g. workers.append) starts a step, so that the
+                    # position "resource acquired, not yet recorded" is an interrupt position of the model
                     stop = True
                 if stop:
                     p = Path(L)
@@ -1268,6 +1272,9 @@ class Encoder:
         for L in self.paths["main"]:
             ins = main.instrs[L]
             if ins.op == "end" or L not in self.main_concurrent:
+                continue
+            startup = ins.op == "env" and ins.a[0] == "method" and ins.a[2] == "append"  # about to record a resource it has just acquired
+            if (self.opts.int_where == "not_startup" and startup) or (self.opts.int_where == "only_startup" and not startup):
                 continue
             at = sc["pc_main"] == z3.BitVecVal(self.labels["main"][L], self.PCW)
             s2 = s.copy()
